@@ -292,6 +292,17 @@ inline Program gen_general(Tape & t, int size, const GenOpts & go) {
                 if (big_left && t.chance(1, 6)) { u.data.n = (uint32_t) ((1 << 20) + t.range(-30, 100000)); --big_left; }
                 else u.data.n = (uint32_t) t.range(text ? 0 : 0, 100);
                 if (u.stor == 1 && t.chance(1, 10)) u.nulldata = true;   // rejected call (NULL data, size > 0): must leave no trace (seeded/C14d)
+                else if (t.chance(1, 8)) {
+                    // 28 payload bytes + their CRC have the layout of a chunk header; with 28 in the payload_length position the
+                    // fake header even claims the following 32 bytes as its payload (the backward scan for the last chunk must not
+                    // be fooled, neither in a closed file, where END follows, nor in an unclosed one)
+                    u.stor = 1; u.nulldata = false; u.data.gen = false; u.data.text = false;
+                    u.data.lit.assign(28, 0);
+                    for (int q = 0; q < 28; ++q) u.data.lit[(size_t) q] = (uint8_t) (t.raw() >> 7);
+                    u.data.lit[16] = (uint8_t) t.pick(std::vector<int>{0x40, 0xff, 0x22, 0x01});   // tag position: USER_DATA / END / FSR data / source def
+                    u.data.lit[20] = 28; u.data.lit[21] = 0; u.data.lit[22] = 0; u.data.lit[23] = 0;
+                    u.data.n = 28;
+                }
                 p.ops.push_back(u);
                 break;
             }
@@ -301,5 +312,11 @@ inline Program gen_general(Tape & t, int size, const GenOpts & go) {
         }
     }
     for (auto & q : plans) if (!q.defined && t.coin()) define(q);
+    if (t.chance(1, 10)) {   // ... and as the very last chunk of the file (END follows it directly)
+        Op u; u.op = "user"; u.meta = 5; u.stor = 1; u.data.gen = false; u.data.lit.assign(28, 0x11);
+        for (int q = 0; q < 28; ++q) u.data.lit[(size_t) q] = (uint8_t) (t.raw() >> 7);
+        u.data.lit[20] = 28; u.data.lit[21] = 0; u.data.lit[22] = 0; u.data.lit[23] = 0; u.data.n = 28;
+        p.ops.push_back(u);
+    }
     return p;
 }
